@@ -41,6 +41,7 @@ EXPRESSIONS = [
     "str(path('/a/b')) == '/a/b'", "uint16(80) == r.port", "filesize(5) > 1", "uri('http://h/p') == 'http://h/p'", "net.ipnetwork('10.0.0.0/8') == r.net", "wstring('x') == r.s", "uint32(80) == r.port", "boolean(1) == r.flag",
     "True", "False", "None", "1", "0", "'x'", "''", "[]", "[0]", "()", "1 == 1", "1 < 2 < 3", "3 > 2 > 2",
     # the text of a literal is taken as it is written: runs of blanks, tabs, line breaks and no-break spaces inside quotes belong to the value
+    "Type.string in ['abc', 'x']", "Type.string not in ['abc']", "Type.varint in (5, 6)", "Type.varint not in [5]", "not (Type.string in ['abc'])",
     "r.s == 'a  b'", "'  ' in r.s", "r.s == 'a\tb'", "r.s   ==   'a b'", "r.s == '''a\nb'''", "r.s == 'a\xa0b'", "r.s in ['x  y', ' z ']",
 ]
 REJECTED = ["lambda: 1", "{1: 2}", "{1, 2}", "r.n if r.m else 1", "r.sl[0] == 'a'", "f'{r.n}'", "[x for x in r.sl]", "{x for x in r.sl}", "(y := 1)", "r.n - 1", "r.n // 2", "r.n ** 2", "r.n << 1", "r.n >> 1", "r.n ^ 1", "-r.n", "+r.n", "~r.n", "*r.sl", "r.n.__class__"]
@@ -283,6 +284,25 @@ def build(tier="quick", seed=0):
     # a generator expression that shadows a loop variable that is still live: refusing is allowed (the interpreted engine has one flat namespace), a wrong answer is not
     for e in ["any(any(x == 'b' for x in r.sl) and x == 'a' for x in r.sl)", "any(x == 'b' for x in r.sl for x in r.sl)"]:
         pack.add(expr_obligation(e, may_refuse=True))
+
+    # the helper functions on a grouped record: both engines give the documented answer (names() are the member type names, name() is the group's)
+    for expr, want in (('"c07/ma" in names(r)', True), ('"c07/mb" in names(r)', True), ('"c07/grp" in names(r)', False), ('name(r) == "c07/grp"', True), ("has_field(r, 'b2')", True), ("field_equals(r, ['a1', 'b2'], ['bee'])", True)):
+        name = f"C07.grouped[{expr}]"
+
+        def th_grp(expr=expr):
+            A = it.call(RD, ["c07/ma", [("string", "a1")]], {})
+            B = it.call(RD, ["c07/mb", [("string", "b2")]], {})
+            g = it.call(base.g["GroupedRecord"], ["c07/grp", [it.call(A, [], {"a1": "ay"}), it.call(B, [], {"b2": "bee"})]], {})
+            out = []
+            for cls in ("Selector", "CompiledSelector"):
+                try:
+                    out.append(bool(it.truth(it.call(it.getattr_(it.call(sel.g[cls], [expr], {}), "match"), [g], {}))))
+                except PyRaise as e:
+                    out.append("raise " + e.cls_name)
+            return out
+
+        pack.add(Obligation(name, lambda tier, name=name, th_grp=th_grp, want=want, expr=expr: prove_paths(name, th_grp, lambda p, want=want: (p.value == [want, want], f"{expr!r} on a grouped record: interpreted / compiled give {p.value}, the documented answer is {want}")),
+                            replay=lambda w, expr=expr, want=want: {"call": "c07_grouped", "args": {"expr": expr, "want": want}}, functions=FU, mode="helper functions over one grouped record"))
 
     # outside the language: rejected with an error, never evaluated to a value (interpreted engine)
     for e in REJECTED:
